@@ -852,6 +852,7 @@ def run(prop, tier, replay=None):
     from vf.report import load_known
     tuple_listed = any(k['property'] == 'C05' and 'dtype=tuple|dargs=nonempty' in k['signature'] for k in load_known())
     explained = 0
+    deviations = []
     anyfail = set(rid for rid, _ in fails)
     for rid, (j, r) in meta.items():
         if rid in anyfail:
@@ -868,6 +869,8 @@ def run(prop, tier, replay=None):
         hard = [n for n in r['notes'] if n.startswith('hang') or n.startswith('aborted')]
         if not ok or hard:
             mism += 1
+            if len(deviations) < 80:
+                deviations.append({'kind': j['kind'], 'pipe': j['pipe'], 'ops': [s[0] for s in j['hist']], 'outs': r['outs'], 'notes': r['notes'], 'id': rid})
             if len(drift) < 4:
                 drift.append('%s worker deviates from the TLC behaviour: history %s spec outcomes %s real outcomes %s notes %s'
                              % (j['kind'], [s[0] for s in j['hist']], exp if j['mode'] != 'eager' else '(allowed set)', r['outs'], r['notes'][:2]))
@@ -886,6 +889,7 @@ def run(prop, tier, replay=None):
     ev.cov['replays_per_kind'] = per_kind
     ev.cov['replays_not_run'] = len(missing)
     ev.cov['replay_mismatches'] = mism
+    ev.cov['deviations'] = deviations
     ev.cov['replays_in_scope_of_listed_tuple_finding_not_conformance_checked'] = explained
     for j, r in list(meta.values())[:1] + [m for m in meta.values() if m[0]['kind'] != 'thread'][:2] + [m for m in meta.values() if len(m[0]['hist']) >= 6][:1]:
         ev.sample({'kind': j['kind'], 'defaults': [j['dtype'], j['dargs'], j['dkw']], 'history': [s[0] for s in j['hist']], 'items': j['items'], 'outcomes': r['outs']})
